@@ -38,8 +38,8 @@ Definition accrued_atomics (r : reward) (a : addr) : result N :=
   do rw <- decimal_rewards (rw_gi r) (ho_idx h) (ho_bal h);
   dec_add_256 rw (ho_pend h).
 
-Definition reward_execute (w : world) (self sender : addr) (m : reward_msg) : result (world * list cmsg) :=
-  do r <- w_reward w;
+Definition reward_execute (w : world) (r : reward) (self sender : addr) (m : reward_msg)
+  : result (reward * list cmsg) :=
   match m with
   | RClaim recipient =>
       let h := holder_of r sender in
@@ -52,21 +52,21 @@ Definition reward_execute (w : world) (self sender : addr) (m : reward_msg) : re
       let r1 := set_rw_state r (rw_gi r) (rw_total r) prev in
       let r2 := set_rw_holder r1 sender (mkHolder (ho_bal h) (rw_gi r) decimals) in
       let to := match recipient with Some a => a | None => sender end in
-      Some (set_reward w r2, [MBank to [(rw_denom r, rewards)]])
+      Some (r2, [MBank to [(rw_denom r, rewards)]])
   | RConfig hubaddr d swap =>
       check sender =? rw_owner r;
-      Some (set_reward w (set_rw_cfg r (rw_owner r)
-                            (match hubaddr with Some a => a | None => rw_hub r end)
-                            (match d with Some x => x | None => rw_denom r end)
-                            (match swap with Some a => a | None => rw_swap r end)
-                            (rw_denoms r) (rw_newowner r)), [])
+      Some (set_rw_cfg r (rw_owner r)
+                       (match hubaddr with Some a => a | None => rw_hub r end)
+                       (match d with Some x => x | None => rw_denom r end)
+                       (match swap with Some a => a | None => rw_swap r end)
+                       (rw_denoms r) (rw_newowner r), [])
   | RSetOwner a =>
       check sender =? rw_owner r;
-      Some (set_reward w (set_rw_cfg r (rw_owner r) (rw_hub r) (rw_denom r) (rw_swap r) (rw_denoms r) a), [])
+      Some (set_rw_cfg r (rw_owner r) (rw_hub r) (rw_denom r) (rw_swap r) (rw_denoms r) a, [])
   | RAccept =>
       check sender =? rw_newowner r;
-      Some (set_reward w (set_rw_cfg r (rw_newowner r) (rw_hub r) (rw_denom r) (rw_swap r) (rw_denoms r)
-                                     (rw_newowner r)), [])
+      Some (set_rw_cfg r (rw_newowner r) (rw_hub r) (rw_denom r) (rw_swap r) (rw_denoms r)
+                       (rw_newowner r), [])
   | RSwap =>
       do dp <- query_dispatcher_addr w (rw_hub r);
       check sender =? dp;
@@ -75,17 +75,17 @@ Definition reward_execute (w : world) (self sender : addr) (m : reward_msg) : re
                     if existsb (N.eqb (fst c)) (rw_denoms r) && negb (snd c =? 0)
                     then [MWasm (rw_swap r) (WSwap (SSwapDenom c (rw_denom r) (Some self))) [c]]
                     else []) coins in
-      Some (w, msgs)
+      Some (r, msgs)
   | RUpdateIndex =>
       do dp <- query_dispatcher_addr w (rw_hub r);
       check sender =? dp;
-      if rw_total r =? 0 then Some (w, [])
+      if rw_total r =? 0 then Some (r, [])
       else
         let balance := bal (w_env w) self (rw_denom r) in
         do claimed <- sub128 balance (rw_prev r);
         do q <- ratio claimed (rw_total r);
         do gi <- dec_add_256 (rw_gi r) q;
-        Some (set_reward w (set_rw_state r gi (rw_total r) balance), [])
+        Some (set_rw_state r gi (rw_total r) balance, [])
   | RInc a amt =>
       do tok <- query_bsei_addr w (rw_hub r);
       check sender =? tok;
@@ -95,7 +95,7 @@ Definition reward_execute (w : world) (self sender : addr) (m : reward_msg) : re
       do b <- add128 (ho_bal h) amt;
       do tot <- add128 (rw_total r) amt;
       let r1 := set_rw_holder r a (mkHolder b (rw_gi r) pend) in
-      Some (set_reward w (set_rw_state r1 (rw_gi r1) tot (rw_prev r1)), [])
+      Some (set_rw_state r1 (rw_gi r1) tot (rw_prev r1), [])
   | RDec a amt =>
       do tok <- query_bsei_addr w (rw_hub r);
       check tok =? sender;
@@ -106,11 +106,11 @@ Definition reward_execute (w : world) (self sender : addr) (m : reward_msg) : re
       do b <- sub128 (ho_bal h) amt;
       do tot <- sub128 (rw_total r) amt;
       let r1 := set_rw_holder r a (mkHolder b (rw_gi r) pend) in
-      Some (set_reward w (set_rw_state r1 (rw_gi r1) tot (rw_prev r1)), [])
+      Some (set_rw_state r1 (rw_gi r1) tot (rw_prev r1), [])
   | RSwapDenom d add =>
       check rw_owner r =? sender;
       let ds := if add then rw_denoms r ++ [d] else filter (fun x => negb (x =? d)) (rw_denoms r) in
-      Some (set_reward w (set_rw_cfg r (rw_owner r) (rw_hub r) (rw_denom r) (rw_swap r) ds (rw_newowner r)), [])
+      Some (set_rw_cfg r (rw_owner r) (rw_hub r) (rw_denom r) (rw_swap r) ds (rw_newowner r), [])
   end.
 
 (** queries for the dump *)
